@@ -7,7 +7,7 @@ REPO = os.environ.get('HEPH_REPO', '/repo')
 
 ID = 'C07'
 LEVEL = 'proof'
-SIDECARS = ['types_sub', 'types_inst']
+SIDECARS = ['types_sub', 'types_ctor', 'types_inst']
 _T = 'src.ir.types.'
 FUNCTIONS = [_T + f for f in (
     'Type.__init__', 'SimpleClassifier.__init__', 'TypeParameter.__init__', 'WildCardType.__init__',
